@@ -2,6 +2,6 @@ SPECIFICATION Spec
 CONSTANTS
   NPs = {2}
   MaxFields = 3
-  Later = {"tx", "sigK"}
+  Later = {"tx"}
   IndDims = {}
 INVARIANTS KeepDisjoint NoSigNoPerms FlagsDoNotSign Emit
